@@ -122,6 +122,16 @@ func init() {
 		},
 		"verifSameF32": func(e *Exec, fr *frame, args []Value) Value { return e.B.Eq(args[0].(*Term), args[1].(*Term)) },
 		"verifSameF64": func(e *Exec, fr *frame, args []Value) Value { return e.B.Eq(args[0].(*Term), args[1].(*Term)) },
+		"verifLogBegin": func(e *Exec, fr *frame, args []Value) Value {
+			e.logSeg, _ = e.concreteString(args[0].(StringV))
+			e.logging = true
+			e.logCount = nil
+			return nil
+		},
+		"verifLogEnd": func(e *Exec, fr *frame, args []Value) Value {
+			e.logging = false
+			return nil
+		},
 		"verifPush": func(e *Exec, fr *frame, args []Value) Value {
 			e.scopes = append(e.scopes, len(e.pcs))
 			return nil
